@@ -501,3 +501,12 @@ package virtual
 //@   props C16
 //@   requires ff.file != nil
 //@   ensures descriptor-dropped: true
+
+// The filter callback of FilterChildren is documented to be allowed to call
+// the remover it is handed synchronously, and the remover locks the directory:
+// the callback is therefore only ever invoked with the directory lock released
+// (C14: no call waits for a lock its own thread holds).
+//@ func (*inMemoryPrepopulatedDirectory).filterChildrenRecursive
+//@   props C14
+//@   at call dyn#1 assert the-filter-runs-without-the-directory-lock: held(i.lock) == 0
+//@   at call dyn#2 assert the-filter-runs-without-the-directory-lock: held(i.lock) == 0
